@@ -247,6 +247,12 @@ def r2_log(text):
             k += 1
         if k < len(m) and m[k] == ';':
             e = k
+        # a log call that is the whole body of a match arm / closure (`=> debug!(..)`) leaves an empty block
+        pre = text[:b].rstrip()
+        if pre.endswith('=>') or pre.endswith('|'):
+            text = text[:b] + '{}' + text[e + 1:]
+            n += 1
+            continue
         # remove whole lines if the block stands alone
         ls = text.rfind('\n', 0, b) + 1
         if text[ls:b].strip() == '':
